@@ -67,7 +67,9 @@ def generate(ctx):
             r = rng.random()
             if r < 0.25:
                 raw = "same"
-            elif r < 0.5:
+            elif r < 0.32:
+                raw = ""  # the empty raw manifest: a manifest like any other, not "no manifest"
+            elif r < 0.55:
                 raw = hx(bytes(rng.randrange(256) for _ in range(rng.randrange(0, 40))))
         cases.append({"kind": kind, "sub": sub, "raw": raw, "flipseed": rng.randrange(2**32), "other": None})
     # pair each case with another of the same kind, as a source of field values for evolve
